@@ -658,9 +658,9 @@ func c10RunUDP(q c10UDPParams) (c10UDPResult, error) {
 
 func runC10(a runArgs) error {
 	e := NewEmitter("C10", "Server.Run")
-	e.Preamble = "From GoCoap Require Import Base.Bytes Dedup.Model Dedup.Spec Server.Model Server.Spec.\nFrom GoCoap Require Monitor.Model Server.KeepAlive."
+	e.Preamble = "From GoCoap Require Import Base.Bytes Dedup.Model Dedup.Spec Server.Model Server.Spec.\nFrom GoCoap Require Monitor.Model Server.KeepAlive.\nFrom GoCoap Require Import Server.Addr."
 	e.ShardSize = 24
-	e.Rule = "a case is one run of a real server on loopback sockets (udp.NewServer + mux router): 2-4 well-behaved raw-socket clients run scripted CON/NON GET/POST/PUT/DELETE sequences (distinct tokens and payload tags, some retransmissions) while 1-4 adversarial peers send malformed datagrams (truncated header, bad version, TKL 9-15, truncated token/option, nibble 15, option number overflow, marker without payload, random bytes), oversize datagrams, unsolicited ACK/RST/responses and valid requests reusing a good client's token, each burst followed by a ping whose Reset is awaited. Non-trivial = at least two well-behaved clients and at least one datagram the server refused. Handshake families (tls:/dtls: cases): tcp server on a TLS listener (self-signed ECDSA certificate made at run time) and dtls server with PSK; 1-2 well-behaved clients connect and get half of their answers, then 2-5 adversarial peers connect one after the other (send nothing / 3 bytes of a ClientHello / garbage / close at once / full handshake then silence; DTLS: ClientHello never followed up, garbage behind a handshake record header, ClientHello then socket closed, datagram the accept filter drops), then 1-3 more well-behaved clients connect; every run has a peer that never finishes its handshake; all such cases count as non-trivial. Round-2 families: discf: cases = discovery runs in which some DiscoveryRequest calls cannot send their datagram (IPv6 destination on an IPv4 socket, datagram above the UDP limit to a unicast address or a multicast group), followed with preference by responses carrying the same token and by new requests with it (non-trivial = at least one such call); ka: cases = udp/tcp servers with options.WithKeepAlive and 2-4 peers (answering pings, connect-and-stall, chatty, late) on a virtual clock, each peer observed with the others and alone (non-trivial = at least one ping sent and at least one peer dropped by keep-alive)."
+	e.Rule = "a case is one run of a real server on loopback sockets (udp.NewServer + mux router): 2-4 well-behaved raw-socket clients run scripted CON/NON GET/POST/PUT/DELETE sequences (distinct tokens and payload tags, some retransmissions) while 1-4 adversarial peers send malformed datagrams (truncated header, bad version, TKL 9-15, truncated token/option, nibble 15, option number overflow, marker without payload, random bytes), oversize datagrams, unsolicited ACK/RST/responses and valid requests reusing a good client's token, each burst followed by a ping whose Reset is awaited. Non-trivial = at least two well-behaved clients and at least one datagram the server refused. Handshake families (tls:/dtls: cases): tcp server on a TLS listener (self-signed ECDSA certificate made at run time) and dtls server with PSK; 1-2 well-behaved clients connect and get half of their answers, then 2-5 adversarial peers connect one after the other (send nothing / 3 bytes of a ClientHello / garbage / close at once / full handshake then silence; DTLS: ClientHello never followed up, garbage behind a handshake record header, ClientHello then socket closed, datagram the accept filter drops), then 1-3 more well-behaved clients connect; every run has a peer that never finishes its handshake; all such cases count as non-trivial. Round-2 families: discf: cases = discovery runs in which some DiscoveryRequest calls cannot send their datagram (IPv6 destination on an IPv4 socket, datagram above the UDP limit to a unicast address or a multicast group), followed with preference by responses carrying the same token and by new requests with it (non-trivial = at least one such call); ka: cases = udp/tcp servers with options.WithKeepAlive and 2-4 peers (answering pings, connect-and-stall, chatty, late) on a virtual clock, each peer observed with the others and alone (non-trivial = at least one ping sent and at least one peer dropped by keep-alive). Round-3 families (the keys of the two tables): keyrep: cases = getConnKey and the wildcard helpers on address pairs whose IPv4 addresses come as 4 bytes or as 16 bytes, nil / unspecified / multicast / IPv6 / zones included (non-trivial = the two pairs are the same pair in two representations); rep: cases = a live udp server bound to 127.0.0.1, 2-3 peers on AF_INET sockets sending requests, the application calling Server.NewConn with the peer address from the socket, from net.ResolveUDPAddr or from net.IPv4() (with or without the local address in either form) and sending requests over the connection returned, which the peer answers (non-trivial = at least one look-up with a 16-byte IP); tokkey: cases = Token.Hash() of tokens, among them families that differ only in zero bytes in front; disctok: cases = discovery runs whose token pool is one byte string with 0, 1, 2 and 8-len zero bytes in front (plus 00, 00 00 and, for responses, the empty token)."
 	rng := NewRng(a.seed)
 	if v, err := strconv.Atoi(os.Getenv("HX_C10_HS_RUNS")); err == nil && v > 0 && a.only == "" {
 		// development aid: stress the handshake families alone
@@ -842,13 +842,16 @@ func runC10(a runArgs) error {
 		}
 	}
 	for _, sd := range discs {
-		coq, err := c10DiscRun(sd, false)
+		coq, err := c10DiscRun(sd, false, false)
 		if err != nil {
 			return err
 		}
 		e.AddW(coq, fmt.Sprintf("disc:%d", sd), true, 1+len(coq)/4000, "disc-run")
 	}
 	if err := c10RoundTwoFamilies(e, a, mult); err != nil {
+		return err
+	}
+	if err := c10RoundThreeFamilies(e, a, mult); err != nil {
 		return err
 	}
 	if err := c10HsFamily(e, a, mult); err != nil {
